@@ -221,6 +221,14 @@ pub fn run(ctx: &Ctx) -> Report {
                 2 => Sched { cuts: vec![], cycle: (0..31).map(|_| rng.range(1, 9000) as usize).collect() },
                 _ => Sched { cuts: vec![], cycle: vec![4096, 4097, 1, 8192, 3] },
             };
+            if i % 5 == 0 {
+                // with a megabyte command in the pipeline, reads of a few KiB would cost gigabytes of
+                // buffer zero-filling in the real parser: keep the irregularity, raise the scale
+                case.sched.cycle = case.sched.cycle.iter().map(|&c| if c >= 1000 { c * 37 } else { c * 9000 + 70_000 }).collect();
+                if case.sched.cycle.is_empty() {
+                    case.sched.cycle = vec![1 << 20];
+                }
+            }
             let obs = run_case(&case);
             rep.evaluations += 1;
             rep.counters.class(format!("pipeline of 200-2000 commands, sched kind {}", kind));
